@@ -9,6 +9,7 @@ import (
 	"testing"
 	"time"
 
+	"github.com/kercylan98/vivid"
 	"github.com/kercylan98/vivid/internal/verifrt"
 )
 
@@ -216,6 +217,11 @@ func vfStashModel(script []vfStashStep) (order []int, counts []int, finalStash [
 		x := q[0]
 		q = q[1:]
 		order = append(order, x.id)
+		if x.st.Op == "panic" {
+			// the behaviour fails on this message; the supervisor restarts (or resumes) the actor: the message is consumed, the
+			// queue behind it and the stash are untouched (no StashCount sample: the handler did not return)
+			continue
+		}
 		switch x.st.Op {
 		case "stash":
 			s = append(s, x)
@@ -253,12 +259,23 @@ func vfRunStash(script []vfStashStep, res *vfCellResult) {
 		add("harness-error", "start", "%v", err)
 		return
 	}
-	ref, err := w.spawnTop(&vfSpec{Name: "S", TrackStash: true})
-	if err != nil {
+	// S lives under a supervisor whose decision for a failure is chosen by the script (Restart / graceful Restart / Resume)
+	dec := vivid.SupervisionDecisionRestart
+	for _, st := range script {
+		if st.Op == "panic" {
+			dec = []vivid.SupervisionDecision{vivid.SupervisionDecisionRestart, vivid.SupervisionDecisionGracefulRestart, vivid.SupervisionDecisionResume}[st.K%3]
+		}
+	}
+	if _, err := w.spawnTop(&vfSpec{Name: "sup", Strategy: vfStratOne, Decisions: []vivid.SupervisionDecision{dec}, Children: []*vfSpec{{Name: "S", TrackStash: true, Provider: len(script)%2 == 0}}}); err != nil {
 		add("harness-error", "spawn", "%v", err)
 		return
 	}
 	w.wait()
+	ref := w.ref("S")
+	if ref == nil {
+		add("harness-error", "spawn", "S not spawned")
+		return
+	}
 	gate := newVfGate()
 	w.tell(ref, "actorof", &vfCmd{ID: 100000, Op: "gate", Arg: gate})
 	<-gate.entered
@@ -272,13 +289,14 @@ func vfRunStash(script []vfStashStep, res *vfCellResult) {
 	w.wait()
 	close(gate.release)
 	w.settle(100 * time.Millisecond)
+	w.settle(time.Second)
 	wantOrder, wantCounts, wantStash := vfStashModel(script)
 	var gotOrder, gotCounts []int
 	for _, e := range w.snapshot() {
-		if e.Kind == "recv" && e.Path == "/S" && e.Msg == "U" && e.ID != 100000 {
+		if e.Kind == "recv" && e.Path == "/sup/S" && e.Msg == "U" && e.ID != 100000 {
 			gotOrder = append(gotOrder, e.ID)
 		}
-		if e.Kind == "api" && e.Path == "/S" && e.Msg == "stashcount" {
+		if e.Kind == "api" && e.Path == "/sup/S" && e.Msg == "stashcount" {
 			gotCounts = append(gotCounts, e.ID)
 		}
 	}
@@ -291,7 +309,7 @@ func vfRunStash(script []vfStashStep, res *vfCellResult) {
 		add("order-stash-count", "StashCount", "StashCount after each message was %v, model predicts %v", gotCounts, wantCounts)
 	}
 	var gotStash []int
-	if cx := w.ctxOf("/S"); cx != nil {
+	if cx := w.ctxOf("/sup/S"); cx != nil {
 		for _, e := range cx.stash {
 			if cmd, ok := e.Message().(*vfCmd); ok {
 				gotStash = append(gotStash, cmd.ID)
@@ -300,6 +318,27 @@ func vfRunStash(script []vfStashStep, res *vfCellResult) {
 	}
 	if fmt.Sprint(gotStash) != fmt.Sprint(wantStash) {
 		add("order-stash-content", "stash", "final stash holds %v, model predicts %v", gotStash, wantStash)
+	}
+	// C03: a message that stashed itself has three legitimate fates afterwards - still in the stash, handled a second time
+	// after an Unstash, or dead-lettered; gone without a trace is a loss
+	seenN, inStash, dls := map[int]int{}, map[int]bool{}, map[int]int{}
+	for _, id := range gotOrder {
+		seenN[id]++
+	}
+	for _, id := range gotStash {
+		inStash[id] = true
+	}
+	for _, e := range w.snapshot() {
+		if e.Kind == "obs" && e.Msg == "dl:U" {
+			dls[e.ID]++
+		}
+	}
+	for i, st := range script {
+		id := i + 1
+		if st.Op == "stash" && seenN[id] == 1 && !inStash[id] && dls[id] == 0 {
+			add("c03-stashed-message-lost", "stash", "message #%d stashed itself and is neither in the stash, nor handled again, nor dead-lettered (final stash %v)", id, gotStash)
+			break
+		}
 	}
 	res.viols = append(res.viols, w.oracleOverlap()...)
 	res.sig = fmt.Sprint(wantOrder)
@@ -310,7 +349,7 @@ func vfRunStash(script []vfStashStep, res *vfCellResult) {
 }
 
 func TestVerif_stashmodel(t *testing.T) {
-	R := verifrt.NewReport("stashmodel", "PRNG single-sender scripts of <= 40 steps from {plain message, message that stashes itself, Unstash(), Unstash(k) with k in -1..6}, all enqueued while the actor is held in a gate, then released; the sequence of messages the behaviour sees, StashCount after every message and the final stash content must equal a 25-line sequential model of (mailbox queue, stash). non-trivial+distinct = distinct predicted sequences in which at least one message is seen twice (stashed and returned)")
+	R := verifrt.NewReport("stashmodel", "PRNG single-sender scripts of <= 40 steps from {plain message, message that stashes itself, Unstash(), Unstash(k) with k in -1..6; in 40 % of the scripts also up to two messages on which the behaviour panics, answered by the supervisor with Restart / graceful Restart / Resume: the stash and the queue behind the failing message survive}, all enqueued while the actor is held in a gate, then released; the sequence of messages the behaviour sees, StashCount after every message and the final stash content must equal a 25-line sequential model of (mailbox queue, stash). non-trivial+distinct = distinct predicted sequences in which at least one message is seen twice (stashed and returned)")
 	defer R.Flush()
 	n := verifrt.EnvInt("VERIF_N", 5000)
 	if verifrt.Thorough() {
@@ -324,7 +363,15 @@ func TestVerif_stashmodel(t *testing.T) {
 		rng := verifrt.NewRand(verifrt.CaseSeed("stashmodel", ci))
 		steps := 1 + rng.Intn(40)
 		script := make([]vfStashStep, steps)
+		panics := 0
+		withFailures := rng.Intn(100) < 40
+		pdec := rng.Intn(3)
 		for i := range script {
+			if withFailures && panics < 2 && rng.Intn(100) < 12 {
+				panics++
+				script[i] = vfStashStep{Op: "panic", K: pdec}
+				continue
+			}
 			switch r := rng.Intn(100); {
 			case r < 35:
 				script[i] = vfStashStep{Op: "noop"}
